@@ -80,6 +80,14 @@ class Fam:
     def plaq_op(self, rng, i):
         return ('plaquette', i)
 
+    plaq_operators = None   # the documented values of the `operator` argument of plaquette(), when it has one
+
+    def plaq_spec(self, size, flat, op):
+        """independent statement of what a `plaquette` write does to a fresh Pauli, for the families whose plaquette takes
+        an OPERATOR argument: bsf vector, 'IndexError' (not a plaquette index), or None (no statement here: the other
+        families' plaquettes are compared with the Lean model by qv/families/*)"""
+        return None
+
     def path_pair(self, code, rng):
         return None
 
@@ -297,8 +305,27 @@ class Color666(Fam):
         cand = [i for i in _box(-3, b + 3, -3, b + 3) if i not in inside]
         return [rng.choice(cand) for _ in range(k)]
 
+    plaq_operators = 'IXYZ'
+
     def plaq_op(self, rng, i):
-        return ('plaquette', rng.choice('XZ'), i)
+        return ('plaquette', rng.choice(self.plaq_operators), i)   # every documented operator value, not just X / Z
+
+    def plaq_spec(self, size, flat, op):
+        o, (r, c) = op[1], op[2]
+        if c % 3 != 2 - (r % 3):
+            return 'IndexError'        # not a plaquette index
+        n = len(flat)
+        v = np.zeros(2 * n, dtype=int)
+        # the operator on each of the six sites around the plaquette that lie in the lattice
+        for s in ((r - 1, c - 1), (r - 1, c), (r, c - 1), (r, c + 1), (r + 1, c), (r + 1, c + 1)):
+            j = flat.get(s)
+            if j is None:
+                continue
+            if o in 'XY':
+                v[j] ^= 1
+            if o in 'ZY':
+                v[n + j] ^= 1
+        return v
 
     def sizes(self, tier):
         return [(s,) for s in range(3, (9 if tier == 'quick' else 13) + 1, 2)]
@@ -402,6 +429,15 @@ def fresh_delta(code, op):
     return np.array(q.to_bsf(), dtype=int), exc
 
 
+def fresh_after(code, op):
+    q = code.new_pauli()
+    try:
+        apply(q, op)
+    except Exception:
+        pass
+    return q
+
+
 def site_spec(fam, size, flat, op):
     """independent statement of a `site` write: XOR of the unit vectors at the flattened (wrapped) indices; an index
     that is not an in-lattice site contributes nothing (out of bounds = no effect) or raises (wrong kind) — None then"""
@@ -427,7 +463,7 @@ def random_write(fam, code, size, sites, plaqs, rng, outside_share=0.3):
         idx = [rng.choice(sites) if rng.random() > outside_share else fam.outside(size, rng, 1)[0] for _ in range(k)]
         if any(tuple(i) not in set(sites) and fam.norm(size, i) is None for i in idx):
             idx = idx[-1:]            # an index that may raise / be ignored goes alone (no partial application)
-        return ('site', rng.choice('XYZ'), idx)
+        return ('site', rng.choice('XYZXYZI'), idx)
     if u < 0.62:
         i = rng.choice(plaqs) if rng.random() < 0.85 else fam.outside(size, rng, 1)[0]
         return fam.plaq_op(rng, i)
@@ -435,6 +471,26 @@ def random_write(fam, code, size, sites, plaqs, rng, outside_share=0.3):
         a, b = fam.path_pair(code, rng)
         return ('path', a, b)
     return (rng.choice(fam.logicals),)
+
+
+def plaq_agrees(want, v, exc):
+    if isinstance(want, str):
+        return exc == want and not v.any()
+    return exc is None and np.array_equal(v, want)
+
+
+def plaq_report(fam, size, flat, p, w, v, want, exc, tag):
+    """concrete input for a plaquette write that is not the documented operator: the call, both bsfs, and what
+    operator() reads at the sites the documented operator touches"""
+    d = {'family': fam.name, 'size': list(size), 'code': tag, 'call': show(w), 'raised': exc, 'to_bsf': bits(v),
+         'expected': want if isinstance(want, str) else bits(want)}
+    if not isinstance(want, str):
+        n = len(flat)
+        inv = {k: s for s, k in flat.items()}
+        touched = sorted({j % n for j in np.flatnonzero(want)} | {j % n for j in np.flatnonzero(v)})
+        d['operator()_reads'] = {str(list(inv[j])): read(p, inv[j]) for j in touched[:8]}
+        d['documented_reads'] = {str(list(inv[j])): pauli_char(want[j], want[n + j]) for j in touched[:8]}
+    return d
 
 
 # ------------------------------------------------------------------------------------------------ A. read-back
@@ -450,13 +506,19 @@ def readback(ctx, mon, fam, code, size):
                                                                                'sites': n})
         return
     plaqs = fam.plaquettes(code)
+    # OPERATOR values as a class: every value the API documents ('I', 'X', 'Y', 'Z') wherever a write takes an operator
     writes = [('site', o, [s]) for s in sites for o in 'XYZ']
-    writes += [fam.plaq_op(rng, i) for i in plaqs]
+    writes += [('site', 'I', [s]) for s in rng.sample(sites, min(len(sites), ctx.scale(6, 16)))]
+    if fam.plaq_operators:
+        writes += [('plaquette', o, i) for i in plaqs for o in fam.plaq_operators]
+        writes += [('plaquette', rng.choice(fam.plaq_operators), i) for i in fam.outside(size, rng, ctx.scale(6, 16))]
+    else:
+        writes += [fam.plaq_op(rng, i) for i in plaqs]
     writes += [(l,) for l in fam.logicals]
     if fam.paths:
         writes += [('path',) + tuple(fam.path_pair(code, rng)) for _ in range(ctx.scale(8, 20))]
     # wrapped / out-of-lattice single-site writes
-    writes += [('site', rng.choice('XYZ'), [i]) for i in fam.outside(size, rng, ctx.scale(10, 30))]
+    writes += [('site', rng.choice('IXYZ'), [i]) for i in fam.outside(size, rng, ctx.scale(10, 30))]
     lean_budget = ctx.scale(6, 16)
     for w in writes:
         p = code.new_pauli()
@@ -489,6 +551,13 @@ def readback(ctx, mon, fam, code, size):
             if want is None and v.any():
                 mon.fail(fam.name, 'site-write-outside', 'site() at an index outside the lattice changes the operator',
                          {'code': tag, 'call': show(w), 'to_bsf': bits(v)})
+                continue
+        if w[0] == 'plaquette':
+            want = fam.plaq_spec(size, flat, w)
+            if want is not None and not plaq_agrees(want, v, exc):
+                mon.fail(fam.name, 'plaq-write', 'plaquette({!r}, index) does not apply {!r} to exactly the in-lattice sites '
+                         'around the plaquette: what was written is not what the bsf holds / operator() reads back'.format(
+                             w[1], w[1]), plaq_report(fam, size, flat, p, w, v, want, exc, tag))
                 continue
         idxs = list(sites) + fam.outside(size, rng, ctx.scale(6, 16))
         use_lean = fam.lean_opat and lean_budget > 0 and (w[0] != 'site' or rng.random() < 0.05)
@@ -568,6 +637,13 @@ def history(ctx, mon, fam, code, size, length, mode, lean):
             if spec is not None and (dexc is not None or not np.array_equal(d, spec)):
                 bad('site-write', 'site() on a fresh Pauli does not toggle exactly the bits at the flattened indices',
                     {'call': show(op), 'to_bsf': bits(d), 'expected': bits(spec), 'raised': dexc})
+                return None
+        if op[0] == 'plaquette':
+            spec = fam.plaq_spec(size, flat, op)
+            if spec is not None and not plaq_agrees(spec, d, dexc):
+                bad('plaq-write', 'plaquette({!r}, index) on a fresh Pauli does not apply {!r} to exactly the in-lattice '
+                    'sites around the plaquette'.format(op[1], op[1]),
+                    plaq_report(fam, size, flat, fresh_after(code, op), op, d, spec, dexc, tag))
                 return None
         exc = None
         try:
